@@ -53,6 +53,7 @@ def cases(tier):
     for i in range(4):
         yield dict(kind="lig", part=i, tier=tier)
     yield dict(kind="lig-two", tier=tier)
+    yield dict(kind="lig-unnamed", tier=tier)
     yield dict(kind="split", tier=tier)
     yield dict(kind="split-run", tier=tier)
 
@@ -376,6 +377,48 @@ def check_lig(case):
     return viols, evals, keys
 
 
+def check_lig_unnamed(case):
+    """-lig whose host part names neither a molecule nor an index (every molecule is eligible), with the host molecules last in
+    the topology and as many ligand molecules as hosts"""
+    viols, evals, keys = [], 0, []
+    sysd = dict(SYS, molecules=[("W", 2), ("CH4", 2)], kwargs=dict(nrewind=2, maxiter=5))
+    resinfo = [("S", 1), ("B", 2), ("S", 3), ("B", 4)]
+    for hspec, sel in (("-B#2", lambda rn, rid: rn == "B" and rid == 2), ("-#3", lambda rn, rid: rid == 3), ("-S#1", lambda rn, rid: rn == "S" and rid == 1),
+                       ("-#4", lambda rn, rid: rid == 4)):
+        for lspec in ("W", "W#0"):
+            hosts = [(mi, r) for mi in (2, 3) for r, (rn, rid) in enumerate(resinfo) if sel(rn, rid)]
+            ligs = [0, 1] if lspec == "W" else [0]
+            if lspec == "W#0":
+                continue_ok = len(hosts) <= 1
+                if not continue_ok:
+                    continue
+            s2 = json.loads(json.dumps(sysd))
+            s2["kwargs"]["ligands"] = [[hspec, lspec]]
+            evals += 1
+            case1 = dict(kind="ligu1", host=hspec, lig=lspec)
+            res = G.run_gen_coords(s2, Chooser([]))
+            if res["exc"] is not None:
+                viols.append(crash_violation(res["exc"], case1, assertion="ligand-spec-accepted", tags=["host-molecule-unnamed"]))
+                continue
+            want_atoms = G.expand_atoms(s2)
+            atoms = res["gro"][0] if res["gro"] else []
+            if [(x[0], x[1], x[2]) for x in atoms] != [(w[2], w[3], w[4]) for w in want_atoms]:
+                viols.append(dict(assertion="molecule-list-unchanged", tags=["host-molecule-unnamed"], message=f"-lig {hspec}:{lspec}: output atoms differ", case=case1, detail={}))
+                continue
+            pos = {}
+            for (mi, name, resid, resname, an), x in zip(want_atoms, atoms):
+                pos[(mi, resid - 1)] = np.array(x[3])
+            box = np.array(s2["box"])
+            for (hm, hr), lm in zip(hosts, ligs):
+                step = (G.DEFAULT_VOLUMES[resinfo[hr][0]] + G.DEFAULT_VOLUMES["W"]) / 2.0
+                dist = np.linalg.norm(O.min_image(pos[(hm, hr)] - pos[(lm, 0)], box))
+                if abs(dist - step) > 2e-3 and len(viols) < 20:
+                    viols.append(dict(assertion="ligand-one-step-from-host", tags=["host-molecule-unnamed"],
+                                      message=f"-lig {hspec}:{lspec}: ligand molecule {lm} is {dist:.4f} nm from host residue {(hm, hr)}, step {step}", case=case1, detail={}))
+            keys.append(f"ligu:{hspec}:{lspec}")
+    return viols, evals, keys
+
+
 def check_lig_two(case):
     """two -lig options at once: each ligand molecule ends one step from the host residue its own option names"""
     viols, evals, keys = [], 0, []
@@ -516,7 +559,7 @@ def check_split_run(case):
     return viols, evals, keys
 
 
-FUNCS = {"lig-two": check_lig_two, "tags-dup": check_tags_dup, "pairdir": check_pair_directives, "tags": check_tags, "tags-multi": check_tags_multi, "start": check_start, "lig": check_lig, "split": check_split,
+FUNCS = {"lig-unnamed": check_lig_unnamed, "lig-two": check_lig_two, "tags-dup": check_tags_dup, "pairdir": check_pair_directives, "tags": check_tags, "tags-multi": check_tags_multi, "start": check_start, "lig": check_lig, "split": check_split,
          "split-run": check_split_run}
 
 
@@ -524,7 +567,7 @@ def run_case(case):
     kind = case["kind"]
     if kind not in FUNCS:
         # replay of single sub-cases is done by re-running the owning family (cheap) and filtering
-        fam = {"tags1": "tags", "tagsm1": "tags-multi", "pairdir1": "pairdir", "tagsdup1": "tags-dup", "lig2": "lig-two", "start1": "start", "lig1": "lig", "split1": "split", "splitrun1": "split-run"}[kind]
+        fam = {"tags1": "tags", "tagsm1": "tags-multi", "pairdir1": "pairdir", "tagsdup1": "tags-dup", "lig2": "lig-two", "ligu1": "lig-unnamed", "start1": "start", "lig1": "lig", "split1": "split", "splitrun1": "split-run"}[kind]
         out = []
         for part in range(4 if fam == "lig" else 1):
             c = dict(kind=fam, tier="quick", part=part, directive="sphere" if case.get("key") != "rw_options" else "rw")
